@@ -220,14 +220,22 @@ def concrete(repo, seed, n):
         F = rng.randn(nd, freq.size) + 1j * rng.randn(nd, freq.size)
         W = 2 * np.pi * freq
         ref = np.column_stack([np.linalg.solve(-w * w * M + 1j * w * B + K, F[:, j]) for j, w in enumerate(W)])
-        for cls, kw in (("SolveUnc", {}), ("SolveUnc", {"pre_eig": True}), ("FreqDirect", {})):
-            sol = getattr(ode, cls)(M, B, K, **kw).fsolve(F, freq)
+        # solvers built for the frequency domain only (h = None), built WITH a time step (the eigensolution then keeps one of each conjugate pair) and a real force as well
+        for cls, kw in (("SolveUnc", {}), ("SolveUnc", {"pre_eig": True}), ("FreqDirect", {}), ("SolveUnc", {"h": 0.001}), ("SolveUnc", {"h": 0.01, "pre_eig": True}),
+                        ("SolveUnc", {"h": 0.002, "real_force": True})):
+            kw = dict(kw)
+            Fuse = F.real.copy() if kw.pop("real_force", False) else F
+            if Fuse is not F:
+                ref_keep, ref = ref, np.column_stack([np.linalg.solve(-w * w * M + 1j * w * B + K, Fuse[:, j]) for j, w in enumerate(W)])
+            sol = getattr(ode, cls)(M, B, K, **kw).fsolve(Fuse, freq)
             ev += 1
             err = abs(sol.d - ref).max() / abs(ref).max()
             ok = err < 1e-8 and np.allclose(sol.v, 1j * W * sol.d, rtol=1e-9, atol=0) and np.allclose(sol.a, -W ** 2 * sol.d, rtol=1e-9, atol=0)
             if not ok:
-                return ev, dict(solver=cls, options=kw, rel_err=float(err), m=M.tolist(), b=B.tolist(), k=K.tolist(), freq=freq.tolist(),
+                return ev, dict(solver=cls, options=kw, rel_err=float(err), m=M.tolist(), b=B.tolist(), k=K.tolist(), freq=freq.tolist(), complex_force=bool(Fuse is F),
                                 what="coupled frequency response does not solve (-W^2 M + iW B + K) d = F (or v, a not iW d, -W^2 d)")
+            if Fuse is not F:
+                ref = ref_keep
         # diagonal system with rb + 0 Hz anywhere in the frequency vector, permutation invariance
         m_, b_, k_ = np.array([2.0, 1.0, 3.0]), np.array([0.0, 0.4, 0.6]), np.array([0.0, 90.0, 150.0])
         fq = np.array([1.5, 0.0, 4.0, 2.5])[rng.permutation(4)]
